@@ -38,6 +38,8 @@ theorem encAs_fun : ∀ {t : Ty} {x y : Obj}, EncAs w cfg t x y → y = un w cfg
   | _, _, _, .tdG hg h => by rw [un, if_pos hg, encTD_fun h]
   | _, _, _, .tdB hg h => by rw [un, if_neg (by simp [hg]), encRtKV_fun h]
   | _, _, _, .union h => by simp only [un]; exact encRt_fun h
+  | _, _, _, .ntG hg h => by rw [un, if_pos hg, encT_fun h]
+  | _, _, _, .ntB hg => by rw [un, if_neg (by simp [hg])]
 theorem encRt_fun : ∀ {x y : Obj}, EncRt w cfg x y → y = unAny w cfg x
   | _, _, .none => by simp [unAny]
   | _, _, .bool => by simp [unAny]
@@ -49,8 +51,10 @@ theorem encRt_fun : ∀ {x y : Obj}, EncRt w cfg x y → y = unAny w cfg x
   | _, _, .enum h => by simp [unAny, enumValue, h]
   | _, _, .coll h => by rw [unAny, encRtL_fun h]
   | _, _, .dict h => by rw [unAny, encRtKV_fun h]
-  | _, _, .instDict ht h => by rw [unAny, if_neg (by simp [ht]), encF_fun h]
-  | _, _, .instTuple ht h => by rw [unAny, if_pos ht, encFT_fun h]
+  | _, _, .instDict hn ht h => by rw [unAny, if_neg (by simp [hn]), if_neg (by simp [ht]), encF_fun h]
+  | _, _, .instTuple hn ht h => by rw [unAny, if_neg (by simp [hn]), if_pos ht, encFT_fun h]
+  | _, _, .ntG hn hg h => by rw [unAny, if_pos hn, if_pos hg, encT_fun h]
+  | _, _, .ntB hn hg => by rw [unAny, if_pos hn, if_neg (by simp [hg])]
 theorem encL_fun : ∀ {t : Ty} {xs ys : List Obj}, EncL w cfg t xs ys → ys = unL w cfg t xs
   | _, _, _, .nil => by simp [unL]
   | _, _, _, .cons h hr => by rw [unL, ← encAs_fun h, ← encL_fun hr]
@@ -213,6 +217,20 @@ theorem enc_aux (hws : w.SupU cfg.gen) :
       | none => simp only [wtField, hty] at hwt; simp only [EncField, unField, hty]; exact ihA p.2 (by omega) hwt
       | some t => simp only [wtField, hty] at hwt; simp only [EncField, unField, hty]
                   exact ihU (sizeOf t) t p.2 (by omega) (Nat.le_refl _) (hws.fieldsOK c f hf t hty) hwt
+    have hNTT : ∀ (c : Nat) (fs : List (String × Obj)), sizeOf fs ≤ n → cfg.gen = true →
+        wellTypedT w (w.ntTys c) (vals fs) = true →
+        EncT w cfg (w.ntTys c) (vals fs) (unT w cfg (w.ntTys c) (vals fs)) := by
+      intro c fs hfs hg hwt
+      exact encT_of w cfg _ _ hwt (fun t' ht' z hz hh => by
+        have := sizeOf_lt_of_mem_vals hz
+        exact ihU (sizeOf t') t' z (by omega) (Nat.le_refl _) (ntTys_supU w hws c t' ht') hh)
+    have hNT : ∀ (c : Nat) (fs : List (String × Obj)), sizeOf fs ≤ n → w.isNT c = true →
+        wellTypedT w (w.ntTys c) (vals fs) = true →
+        EncRt w cfg (.inst c fs) (.coll .tuple (if cfg.gen then unT w cfg (w.ntTys c) (vals fs) else vals fs)) := by
+      intro c fs hfs hnt hwt
+      by_cases hg : cfg.gen = true
+      · rw [if_pos hg]; exact .ntG hnt hg (hNTT c fs hfs hg hwt)
+      · rw [if_neg hg]; exact .ntB hnt (by simpa using hg)
     have hAny : ∀ (x : Obj), sizeOf x ≤ n + 1 → wellTypedAny w x = true → EncRt w cfg x (unAny w cfg x) := by
       intro x hx hwt
       cases x with
@@ -241,9 +259,14 @@ theorem enc_aux (hws : w.SupU cfg.gen) :
         rw [wellTypedAny] at hwt
         simp at hx
         rw [unAny]
-        by_cases ht : cfg.tupleStrat = true
-        · rw [if_pos ht]; exact .instTuple ht (encFT_of w cfg _ fs hwt (hField c fs (by omega)))
-        · rw [if_neg ht]; exact .instDict (by simpa using ht) (encF_of w cfg _ fs hwt (hField c fs (by omega)))
+        by_cases hnt : w.isNT c = true
+        · rw [if_pos hnt] at hwt ⊢
+          exact hNT c fs (by omega) hnt hwt
+        · rw [if_neg hnt] at hwt ⊢
+          by_cases ht : cfg.tupleStrat = true
+          · rw [if_pos ht]; exact .instTuple (by simpa using hnt) ht (encFT_of w cfg _ fs hwt (hField c fs (by omega)))
+          · rw [if_neg ht]
+            exact .instDict (by simpa using hnt) (by simpa using ht) (encF_of w cfg _ fs hwt (hField c fs (by omega)))
       | none => simp only [unAny]; exact .none
       | bool b => simp only [unAny]; exact .bool
       | int i => simp only [unAny]; exact .int
@@ -385,7 +408,20 @@ theorem enc_aux (hws : w.SupU cfg.gen) :
         | none => simp [wellTypedAny]
         | inst c fs =>
           simp only [wellTyped, Bool.and_eq_true] at hwt
-          rw [wellTypedAny]; exact hwt.2
+          rw [wellTypedAny]; split
+          · exact wellTypedF_T w _ fs hwt.2
+          · exact hwt.2
+        | _ => simp [wellTyped] at hwt
+      | nt c =>
+        cases x with
+        | inst c' fs =>
+          simp only [wellTyped, Bool.and_eq_true, beq_iff_eq] at hwt
+          obtain ⟨⟨rfl, hnt⟩, h⟩ := hwt
+          simp at hx
+          rw [un]
+          by_cases hg : cfg.gen = true
+          · rw [if_pos hg]; exact .ntG hg (hNTT c fs (by omega) hg h)
+          · rw [if_neg hg]; exact .ntB (by simpa using hg)
         | _ => simp [wellTyped] at hwt
 
 theorem un_enc (hws : w.SupU cfg.gen) {t : Ty} {x : Obj} (hs : t.supU cfg.gen = true) (h : wellTyped w t x = true) :
